@@ -1,11 +1,24 @@
 #!/bin/sh
 # run every registered quick (or $1) check sequentially with VERIF_SEED (default 0); summary in /tmp/run_all_s$SEED.out
+# SNAP=1: run from a snapshot of /verif and of /repo HEAD (so that work can go on in both while it runs; no evidence)
 tier=${1:-quick}
 seed=${VERIF_SEED:-0}
-cd /verif
 out=/tmp/run_all_s$seed.out
 mkdir -p /tmp/run_all_s$seed
 : > $out
+dir=/verif
+if [ -n "$SNAP" ]; then
+  dir=/dev/shm/vsnap-$seed
+  rm -rf $dir; mkdir -p $dir
+  rsync -a --exclude .git --exclude replays --exclude evidence /verif/ $dir/
+  mkdir -p $dir/evidence $dir/replays
+  wt=/tmp/rsnap-$seed
+  git -C /repo worktree remove --force $wt 2>/dev/null
+  git -C /repo worktree add -q --detach $wt HEAD
+  export PYTHONPATH=$wt
+  export VERIF_NO_EVIDENCE=1
+fi
+cd $dir
 for f in checks.d/C*.json; do
   p=$(basename $f .json)
   s=$(date +%s)
@@ -15,3 +28,7 @@ for f in checks.d/C*.json; do
   echo "$p rc=$rc wall=$((e-s))s $(grep -c '^VIOLATION' /tmp/run_all_s$seed/$p.log) violations $(grep -c '^KNOWN-FINDING' /tmp/run_all_s$seed/$p.log) known" >> $out
 done
 echo DONE >> $out
+if [ -n "$SNAP" ]; then
+  git -C /repo worktree remove --force $wt
+  rm -rf $dir
+fi
